@@ -345,3 +345,49 @@ Definition model_msg_nonempty (kind : Z) : bool :=
   | 12 | 13 => false
   | _ => true
   end.
+
+(* ------------------------------------------------------------------ *)
+(* argument-dependent raises: when do the built-ins throw?              *)
+
+(* ToNumber of the argument: undefined (no argument), NaN, an infinity, or the
+   finite double m * 2^e *)
+Inductive argval := AUndef | ANaN | AInf (neg : bool) | AFin (m e : Z).
+
+Inductive ext := ENeg | EFin (z : Z) | EPos.      (* toIntegerFloat: an integer or an infinity *)
+
+(* toIntegerFloat: NaN -> 0, infinities kept, otherwise truncation towards zero *)
+Definition to_integer_float (a : argval) : ext :=
+  match a with
+  | AUndef => EFin 0                                   (* undefined -> NaN -> 0 *)
+  | ANaN => EFin 0
+  | AInf true => ENeg
+  | AInf false => EPos
+  | AFin m e => EFin (if 0 <=? e then m * 2 ^ e else Z.quot m (2 ^ (- e)))
+  end.
+Definition ext_lt (a : ext) (k : Z) : bool :=        (* a < k *)
+  match a with ENeg => true | EPos => false | EFin z => z <? k end.
+Definition ext_gt (a : ext) (k : Z) : bool :=
+  match a with ENeg => false | EPos => true | EFin z => k <? z end.
+
+(* value.number(): kind numberInteger and isUint32 *)
+Definition is_array_length (a : argval) : bool :=
+  match a with
+  | AFin m e =>
+      if 0 <=? e then let v := m * 2 ^ e in (0 <=? v) && (v <? 2 ^ 32)
+      else (m mod 2 ^ (- e) =? 0) && (let v := m / 2 ^ (- e) in (0 <=? v) && (v <? 2 ^ 32))
+  | _ => false
+  end.
+
+(* fn: 1 Number.prototype.toString(radix) 2 toFixed 3 toExponential 4 toPrecision
+       5 new Array(len) with a Number argument 6 array.length = v *)
+Definition model_throws (fn : Z) (a : argval) : bool :=
+  let i := to_integer_float a in
+  match fn with
+  | 1 => match a with AUndef => false | _ => ext_lt i 2 || ext_gt i 36 end      (* radixArgument.IsDefined() *)
+  | 2 => ext_gt i 20 || ext_lt i 0
+  | 3 => match a with AUndef => false | _ => ext_lt i 0 end                     (* no upper check *)
+  | 4 => match a with AUndef => false | _ => ext_lt i 1 end                     (* no upper check *)
+  | 5 => match a with AUndef => false | _ => negb (is_array_length a) end
+  | 6 => negb (is_array_length a)
+  | _ => false
+  end.
